@@ -402,8 +402,23 @@ func (fr *Frame) callContract(site ssa.Instruction, ct *Contract, key string, fn
 	}
 	ev.st = st
 	for _, en := range ct.Ensures {
-		g := ev.evalBool(en.E)
-		vc.assert(Imp(cond, g))
+		// a postcondition that mentions locals of the callee is meaningful only
+		// inside the callee's own proof; callers do not get it
+		g, ok := func() (g T, ok bool) {
+			defer func() {
+				if r := recover(); r != nil {
+					if er, isErr := r.(error); isErr && strings.Contains(er.Error(), "unknown identifier") {
+						ok = false
+						return
+					}
+					panic(r)
+				}
+			}()
+			return ev.evalBool(en.E), true
+		}()
+		if ok {
+			vc.assert(Imp(cond, g))
+		}
 	}
 	return res, cond
 }
